@@ -65,6 +65,38 @@ def branch_sites(bi):
     return [s for s in bi.sites if s.callee.name == "branch" and s.callee.trait == "Try"]
 
 
+class Branch:
+    """`res.branch()` of a completion `res` taken from the group, in either spelling:
+    `match group.next().await { Some(res) => match res.branch() {..} }` or
+    `match group.next().await.map(Try::branch) { Some(Continue(_)) => .., Some(Break(r)) => .. }`."""
+
+    def __init__(self, bi, block, result_term):
+        self.block = block
+        self.result = result_term
+        self.break_edges = []
+        self.cont_edges = []
+        for e in bi.switches:
+            if e["kind"] == "discr" and e["subject"] == result_term:
+                for lab, acc in (("Break", self.break_edges), ("Continue", self.cont_edges)):
+                    ed = bi.edge(e, lab)
+                    if ed:
+                        acc.append(ed)
+        self.residual = ("field", ("variant", result_term, "Break"), 0)
+
+
+def branches_of(bi, a):
+    """Branch objects for the completion obtained by await `a` (a group.next() await)"""
+    out = []
+    payload = ("field", ("variant", a.value, "Some"), 0)
+    for s in branch_sites(bi):
+        if s.arg(0) == payload:
+            out.append(Branch(bi, s.block, s.term))
+    for s in bi.sites:
+        if s.key == ("Option", "map") and s.arg(0) == a.value and s.arg(1) is not None and s.arg(1)[0] == "fn" and s.arg(1)[1][1] == "branch":
+            out.append(Branch(bi, s.block, ("field", ("variant", s.term, "Some"), 0)))
+    return out
+
+
 def rule_branch(ctx, M):
     ent = M.consumers.get("TryForEachConsumer")
     ctx.require(ent is not None, "TryForEachConsumer")
@@ -80,8 +112,7 @@ def rule_branch(ctx, M):
             probs.append("no group.next().await")
         for a in aws:
             some_e, none_e = costream.await_value_tests(bi, a)
-            payload = ("field", ("variant", a.value, "Some"), 0)
-            mine = [s for s in brs if s.arg(0) == payload]
+            mine = branches_of(bi, a)
             if len(mine) != 1:
                 probs.append("a completion taken from the group is not passed to Try::branch exactly once")
                 continue
@@ -89,15 +120,17 @@ def rule_branch(ctx, M):
             lp = bi.body.innermost_loop(a.call_block)     # the user's loop (the await itself is a poll loop)
             header = lp[0] if lp else None
             exits = list(bi.return_blocks) + ([header] if header is not None else [])
-            ok, bad = bi.must_reach([t for _, t in some_e], [br.block], exits)
-            if not some_e or not ok:
-                probs.append("a completion can be dropped without being branched")
-            be = bi.outcome_edges(br, "Break")
-            ce = bi.outcome_edges(br, "Continue")
+            mapped = br.result[0] == "field"      # Option::map form: the branch happens before the Some/None match
+            if not mapped:
+                ok, bad = bi.must_reach([t for _, t in some_e], [br.block], exits)
+                if not some_e or not ok:
+                    probs.append("a completion can be dropped without being branched")
+            be = br.break_edges
+            ce = br.cont_edges
             if not be or not ce:
                 probs.append("the branch result is not matched on Break / Continue")
                 continue
-            rpay = ("field", ("variant", br.term, "Break"), 0)
+            rpay = br.residual
             rets = flow.returned_values(bi)
             r_from_break = bi.reach_from_edges(be)
             if fn in ("send", "progress"):
@@ -132,7 +165,7 @@ def rule_branch(ctx, M):
     probs = []
     rets = flow.returned_values(bi)
     # the stored residual is observed first: `if residual.is_some()` or `if let Some(r) = residual.take()`
-    obs = [s for s in bi.sites if s.key in (("Option", "is_some"), ("Option", "take")) and s.arg(0) == cfield("residual")]
+    obs = [s for s in bi.sites if s.key in (("Option", "is_some"), ("Option", "take"), ("core::mem::take", "take")) and s.arg(0) == cfield("residual")]
     first = [s for s in obs if aws and all(bi.body.dominates(s.block, a.block) for a in aws)]
     te = fe = []
     if not first:
@@ -148,7 +181,8 @@ def rule_branch(ctx, M):
             if t_[0] == "call" and t_[1][1] == "from_residual" and t_[2]:
                 a = t_[2][0]
                 return a[0] == "field" and a[1][0] == "variant" and a[1][2] == "Some" and a[1][1][0] == "call" and \
-                    a[1][1][1] in (("Option", "take"), ("Option", "unwrap")) and a[1][1][2] and a[1][1][2][0] == cfield("residual")
+                    a[1][1][1] in (("Option", "take"), ("Option", "unwrap"), ("core::mem::take", "take"), ("core::mem::replace", "replace")) and \
+                    a[1][1][2] and a[1][1][2][0] == cfield("residual")
             return False
         good = [blk for blk, k, p, t_ in rets if is_stored(t_)]
         okr, bad = bi.must_reach([x for _, x in te], good, bi.return_blocks)
